@@ -152,3 +152,20 @@ def impl_hier_rename(case):
                 raise
             out[tag] = {"ok": False, "exc": type(e).__name__, "msg": str(e)[:300]}
     return out
+
+
+def impl_hier_permute(case):
+    import random
+
+    from hier import permute_lists
+
+    out = {}
+    perm = permute_lists(case["routine"], random.Random(case["seed"]), case.get("child_perm"))
+    for tag, r in (("a", case["routine"]), ("b", perm)):
+        try:
+            out[tag] = dict(impl_hier_compile({"routine": r}), ok=True)
+        except BaseException as e:  # noqa: BLE001
+            if type(e).__name__ == "CaseTimeout":
+                raise
+            out[tag] = {"ok": False, "exc": type(e).__name__, "msg": str(e)[:300]}
+    return out
